@@ -119,14 +119,15 @@ theorem numbers_consecutive (f : Rat → Nat → Option Rat) (hf : C11Meas.Integ
   (C11Meas.tn_numbers _ _ _ _ _ (C11Meas.add_measures_sound' f hf p fuel l ms' hok hl hex h).1).1
 
 /-- **measure_lengths**: under the same hypotheses every measure afterwards is an old one (same extent) or was
-    added inside a stretch `(_, tsEnd, beats)` of one time signature and ends where the bar-end map puts the end
+    added inside a stretch `(tsStart, tsEnd, beats)` of one time signature and ends where the bar-end map puts the end
     of a full bar from its start (`w`), or earlier only because the stretch ends there (next signature change or
     end of the part) or an existing measure starts there -/
 theorem measure_lengths (f : Rat → Nat → Option Rat) (hf : C11Meas.Integral f) (p : PartM) (fuel : Nat)
     (l : List (Nat × Nat × Nat)) (ms' : List Measure) (hok : C11Meas.TsOK p) (hl : stretches p = some l)
     (hex : C11Meas.ExistingOK p l) (h : addMeasuresWith f p fuel = .ok ms') :
     ∀ m ∈ ms', (∃ x ∈ p.measures, x.start = m.start ∧ x.stop = m.stop) ∨
-      ∃ x ∈ l, ∃ w : Nat, f (m.start : Rat) x.2.2 = some (w : Rat) ∧ m.start < x.2.1 ∧ m.stop ≤ w ∧ m.stop ≤ x.2.1 ∧
+      ∃ x ∈ l, ∃ w : Nat, f (m.start : Rat) x.2.2 = some (w : Rat) ∧ x.1 ≤ m.start ∧ m.start < x.2.1 ∧ m.stop ≤ w ∧
+        m.stop ≤ x.2.1 ∧
         (m.stop = w ∨ m.stop = x.2.1 ∨ ∃ y ∈ p.measures, y.start = m.stop) := by
   intro m hm
   rcases (C11Meas.add_measures_sound' f hf p fuel l ms' hok hl hex h).2.2 m hm with ⟨x, hx, he⟩ | ⟨x, hx, hj⟩
